@@ -293,14 +293,20 @@ def purity_replay(chk, scalar, name, meth, sig, why):
             # the point and parameter values found under the path condition of the stale path
             a1 = ','.join(lit(wit.get('arg%d' % k, Fraction(37, 100))) if q == 'S' else '2' for k, q in enumerate(sig.split(','))) if sig else ''
             witp = ''.join('masa_set_param<Scalar>("%s", %s);' % (pn, lit(wit[pn])) for pn in pnames if pn in wit)
-        for perturb in ((False, True) if not wit else (True,)):
+        for perturb in ((False, True, 'nondyadic') if not wit else (True,)):
             # second round: every registered parameter moved off its default first (defaults hide writes of a value that happens to be the default,
             # e.g. a derived parameter recomputed from another one)
             setp = ''.join('masa_set_param<Scalar>("%s", masa_get_param<Scalar>("%s")*(Scalar)1.0625+(Scalar)0.03125);' % (pn, pn) for pn in pnames) if perturb else ''
+            if perturb == 'nondyadic':
+                # third round: values that are not exactly representable (a parameter written back as (p - a) + a is only then visibly changed)
+                setp = ''.join('masa_set_param<Scalar>("%s", (Scalar)1/(Scalar)%d + (Scalar)0.1L);' % (pn, 3 + 2 * k_) for k_, pn in enumerate(pnames))
             if wit:
                 setp = witp
             lines = ['masa_init<Scalar>("a","%s"); %s' % (name, setp)]
             for vn in vnames:
+                if perturb == 'nondyadic':
+                    lines.append('{ std::vector<Scalar> d(3); d[0]=(Scalar)0.1L; d[1]=(Scalar)1.3L; d[2]=(Scalar)2.9L; masa_set_vec<Scalar>("%s",d); }' % vn)
+                    continue
                 lines.append('{ std::vector<Scalar> d(3); d[0]=(Scalar)0.25; d[1]=(Scalar)1.5; d[2]=(Scalar)2.75; masa_set_vec<Scalar>("%s",d); }' % vn)
             lines.append('std::vector<Scalar> before, after;')
             for pn in pnames:
